@@ -34,7 +34,8 @@ CONSTANTS RewriteAllSites, RewriteOnEndpoint, SingleApplyPath,
           Mode,          \* "mc": exhaustive over a small request alphabet; "gen": random programs for the replay
           MaxReq, MaxClock, MaxSnaps, MaxStmts,
           McAlphabet,    \* "small" | "full": the request alphabet of the exhaustive run
-          WithFollower   \* FALSE drops the second live node (quick exhaustive run only)
+          Reduced        \* TRUE (quick exhaustive run only): no second live node, and a request is submitted only when the
+                         \* live node has applied the previous ones (one client that waits for its answers)
 
 (* The site space, the property (MustRewrite) and the design of the rewriter (Replaced) are those of     *)
 (* Rewrite.tla (C14), transcribed here for one-site statements because instantiating that module makes   *)
@@ -84,7 +85,7 @@ NotExecute   == [e \in Endpoints |-> e # "execute"]
 NotQueued    == [e \in Endpoints |-> e # "queued"]
 NotRequest   == [e \in Endpoints |-> e # "request"]
 
-Paths == {"live", "restart", "install", "recover"} \cup (IF WithFollower THEN {"follower"} ELSE {})
+Paths == {"live", "restart", "install", "recover"} \cup (IF Reduced THEN {} ELSE {"follower"})
 
 -----------------------------------------------------------------------------
 (* statements *)
@@ -218,7 +219,8 @@ McEntry == [r \in McReqs |-> Entry(r)]
 ASSUME Mode = "mc" => \A r \in McReqs : ReqOK(r)
 Submit(r, en) == /\ G
                  /\ Len(log) < MaxReq
-                 /\ Mode = "gen" => (ReqOK(r) /\ applied["live"] = Len(log))      \* the HTTP client waits for the answer
+                 /\ Mode = "gen" => ReqOK(r)
+                 /\ (Mode = "gen" \/ Reduced) => applied["live"] = Len(log)       \* the HTTP client waits for the answer
                  /\ log' = Append(log, en)
                  /\ prog' = IF Mode = "gen" THEN Append(prog, r) ELSE prog
                  /\ sched' = Note([a |-> "submit", p |-> "-", i |-> Len(log) + 1])
